@@ -58,6 +58,8 @@ func main() {
 	pkgsF := fs.String("pkgs", "./...", "comma separated package patterns")
 	out := fs.String("out", "", "JSON output")
 	allow := fs.String("allow", "", "allowlist file (inventory mode)")
+	plain := fs.String("plain", "", "plain expansion (erasure mode)")
+	debug := fs.String("debug", "", "debug expansion (erasure mode)")
 	fs.Parse(os.Args[2:])
 	var res *result
 	switch mode {
@@ -65,6 +67,8 @@ func main() {
 		res = shared(*dir, strings.Split(*pkgsF, ","))
 	case "inventory":
 		res = inventory(*dir, strings.Split(*pkgsF, ","), *allow)
+	case "erasure":
+		res = erasure(*plain, *debug, strings.Split(*pkgsF, ","))
 	default:
 		fmt.Fprintln(os.Stderr, "unknown mode", mode)
 		os.Exit(2)
